@@ -144,8 +144,8 @@ func checkC18(p *Program, r *Report) {
 			}
 		})
 		checkBracketGuards(p, r, fr)
-		r.Floor("R18.1", "return statements", n, 2)
-		r.Floor("R18.1", "bracket pairs", pairs, 2)
+		r.Floor("R18.1", "return statements", n, 1)
+		r.Floor("R18.1", "bracket pairs", pairs, 1)
 	}
 	checkPiecewise(p, r, pk)
 }
@@ -420,7 +420,7 @@ func checkBracketGuards(p *Program, r *Report, fr *ssa.Function) {
 			r.OK("R18.3", fmt.Sprintf("util/fn.FindRoot: %s = trial only under comparisons with the running bracket ends", u.phi.Comment))
 		}
 	}
-	r.Floor("R18.3", "guarded bracket updates", n, 2)
+	r.Floor("R18.3", "guarded bracket updates", n, 1)
 }
 
 func keysOf(m map[string]bool) []string {
